@@ -51,20 +51,68 @@ def norm_in(nw, known):
     return False
 
 
-def excluded_inputs(pid, gname):
+def excluded_inputs(pid, gshort):
+    """Normalised inputs listed as known findings of `pid` for the grammar with this short text."""
     p = os.path.join(VERIF, "known_findings.json")
     if not os.path.exists(p):
         return []
     with open(p) as f:
         fs = json.load(f).get("findings", [])
-    return [
-        k["exclude"]["norm"]
-        for k in fs
-        if k.get("property") == pid
-        and k.get("status", "open") == "open"
-        and k.get("exclude", {}).get("grammar") == gname
-    ]
+    out = []
+    for k in fs:
+        if k.get("property") == pid and k.get("status", "open") == "open" and k.get("grammar") == gshort:
+            out.extend(k.get("inputs", []))
+    return out
 
 
 def bump(stats, key):
     stats[key] = stats.get(key, 0) + 1
+
+
+def tokenizations(spec, s):
+    """All ways to split string s into terminal texts (string terminals only)."""
+    if not s:
+        return [()]
+    out = []
+    for t, (kind, val) in spec.terms.items():
+        if kind == "s" and val and s.startswith(val):
+            for rest in tokenizations(spec, s[len(val):]):
+                out.append((t,) + rest)
+    return out
+
+
+def selfcheck_oracle(spec, N):
+    """Oracle self-validation (native): Earley acceptance == brute-force language membership for
+    every string of length <= N over the grammar's characters.  Raises on disagreement."""
+    import itertools
+
+    if any(k != "s" for k, _ in spec.terms.values()):
+        return 0
+    chars = sorted({c for _, v in spec.terms.values() for c in v})
+    L = refcfg.brute_language(spec, N)
+    cnt = 0
+    for n in range(N + 1):
+        for cs in itertools.product(chars, repeat=n):
+            s = "".join(cs)
+            lex, ey = refcfg.analyse(spec, s, n)
+            exp = any(tk in L for tk in tokenizations(spec, s))
+            cnt += 1
+            if ey.accepted != exp:
+                raise AssertionError("oracle self-validation failed on %r for %s: earley=%s brute=%s" % (s, spec.short(), ey.accepted, exp))
+    return cnt
+
+
+def glr_build(spec, tables, seconds=20, **kw):
+    from vp.symx import build_guard
+
+    grammar = Grammar.from_string(spec.text())
+    with build_guard(seconds, "parser construction (termination of table construction is C05's subject)"):
+        return GLRParser(grammar, tables=TABLES[tables], **kw)
+
+
+def lr_build(spec, tables, seconds=20, **kw):
+    from vp.symx import build_guard
+
+    grammar = Grammar.from_string(spec.text())
+    with build_guard(seconds, "parser construction (termination of table construction is C05's subject)"):
+        return Parser(grammar, tables=TABLES[tables], **kw)
